@@ -80,7 +80,9 @@ int main(int argc, char** argv) {
             if (!(std::fabs(est[k]-truth) <= bound)) {
                 char b[400]; std::snprintf(b, 400, "%s %s %s kind=%d n=%d m=%d acc=%.3g entry(param %d, fn %d) y0_i=%.17g estimate=%.17g true=%.17g |err|=%.3g bound=%.3g (trunc %.3g + round %.3g)",
                     io.c_str(), central?"central":"forward", with?"fast":"slow", kind, F.n, F.m, accIn, i, j, y0[i], est[k], truth, std::fabs(est[k]-truth), bound, trunc, round);
-                fail((io=="GS"||io=="JS") ? "calcDerivative-on-vector-function-result-lost" : kind==0 ? "affine-not-exact" : (kind==1 && central) ? "quadratic-not-exact-central" : "error-bound", b); }
+                bool lost = false;     // the known defect: the fast interface leaves the caller's variable untouched
+                if (io=="GS"||io=="JS") { try { Differentiator d2(fn); Real d = 12345.678; d2.calcDerivative(y0[0], F.eval(0,&y0[0]), d, meth); lost = (d == 12345.678); } catch (...) {} }
+                fail(lost ? "calcDerivative-on-vector-function-result-lost" : kind==0 ? "affine-not-exact" : (kind==1 && central) ? "quadratic-not-exact-central" : "error-bound", b); }
         }
     }
     std::printf("DONE %ld\n", nEval);
